@@ -185,7 +185,7 @@ def judge(ck, cases, results):
         ops = c['_ops']
         if c.get('_fam') == 'from-except' and ck.is_known(KNOWN_OUTER):
             ck.known_hit(KNOWN_OUTER, {'type': c['cs'], 'constraint': G.t_constraint(c['constraints'][0]), 'impl': results[i].get('ok')})
-        elif (c.get('_fam') == 'from+size' and j not in unsound_o and json.dumps(c['_inner']).count('"range"') >= 1 and len(ops) >= 1
+        elif (c.get('_fam') in ('from+size', 'from-except') and j not in unsound_o and json.dumps(c['_inner']).count('"range"') >= 1 and len(ops) >= 1
               and ck.is_known(KNOWN_HULL)):
             # folded together with SIZE, the union of ranges / strings that are not adjacent becomes their hull: a superset
             ck.known_hit(KNOWN_HULL, {'type': c['cs'], 'constraint': G.t_constraint(c['constraints'][0]), 'impl': results[i].get('ok')})
